@@ -276,8 +276,25 @@ func dictionaryProtocol(r *RunCtx) {
 			}
 		}
 		itr := dict.AutomatonIterator(a, start, end)
+		// sometimes a second iterator over the same TermDictionary value is
+		// advanced in lock-step: iterators of one dictionary are independent
+		var itr2 segment.DictionaryIterator
+		var got2 []string
+		if c.Prob(1, 4, "dict.second") {
+			itr2 = dict.AutomatonIterator(nil, nil, nil)
+			r.count("probe.dict.two-iterators-of-one-dictionary")
+		}
 		var got []CTerm
 		for {
+			if itr2 != nil {
+				e2, err := itr2.Next()
+				if err != nil {
+					r.fail("C08.error", "DictionaryIterator.Next", "%s field %q second (match-all) iterator: %v", h.Name, field, err)
+				}
+				if e2 != nil {
+					got2 = append(got2, e2.Term)
+				}
+			}
 			e, err := itr.Next()
 			if err != nil {
 				r.fail("C08.error", "DictionaryIterator.Next", "%s field %q %s [%q,%q): %v", h.Name, field, adesc, start, end, err)
@@ -291,6 +308,24 @@ func dictionaryProtocol(r *RunCtx) {
 			}
 		}
 		where := fmt.Sprintf("%s(%s,depth=%d) field %q automaton %s range [%q,%q)", h.Name, h.Kind, h.Depth, field, adesc, start, end)
+		if itr2 != nil {
+			for {
+				e2, err := itr2.Next()
+				if err != nil {
+					r.fail("C08.error", "DictionaryIterator.Next", "%s field %q second (match-all) iterator: %v", h.Name, field, err)
+				}
+				if e2 == nil {
+					break
+				}
+				got2 = append(got2, e2.Term)
+				if len(got2) > len(ref)+4 {
+					break
+				}
+			}
+			if !eqStr(got2, termNames(ref)) {
+				r.fail("C08.terms", "DictionaryIterator.Next", "%s: a second match-all iterator of the same dictionary, advanced alternately, returned %q instead of %q", where, got2, termNames(ref))
+			}
+		}
 		for i := 0; i < len(got) && i < len(want); i++ {
 			if got[i].Term != want[i].Term {
 				r.fail("C08.terms", "DictionaryIterator.Next", "%s: entry #%d is %q, expected %q", where, i, got[i].Term, want[i].Term)
@@ -652,6 +687,31 @@ func docValuesProtocol(r *RunCtx) {
 	for _, h := range w.Segs {
 		if h.Depth != 0 {
 			continue
+		}
+		// the visitable doc-value fields are exactly the fields of the batch that
+		// were indexed with doc values (the one clause of the statement that is
+		// checked against the input itself)
+		if h.Spec != nil {
+			want := map[string]bool{}
+			if len(h.Spec.Docs) > 0 {
+				for i := range h.Spec.Docs {
+					d := &h.Spec.Docs[i]
+					for j := range d.Fields {
+						if d.Fields[j].Opts.IncludeDocValues() {
+							want[d.Fields[j].Name] = true
+						}
+					}
+					for j := range d.Composite {
+						if d.Composite[j].Opts.IncludeDocValues() {
+							want[d.Composite[j].Name] = true
+						}
+					}
+				}
+			}
+			wl := sortedKeys(want)
+			if !eqStr(wl, h.Canon.DVFields) {
+				r.fail("C03.fields", "VisitableDocValueFields", "%s(%s): VisitableDocValueFields=%q, the batch indexes %q with doc values", h.Name, h.Kind, h.Canon.DVFields, wl)
+			}
 		}
 		for _, f := range h.Canon.DVFields {
 			exp := make([][]string, h.Canon.Count)
